@@ -24,6 +24,7 @@ type SpecEnv struct {
 	asGoal bool // the formula is about to be proved: one variant per quantifier is enough
 	pivotNode *SX
 	pivotVar  string
+	pivots    map[*SX]string // further pivot sites (several binders)
 	inOld bool
 	// resolveLocal resolves a source-level local variable name (loop invariants)
 	resolveLocal func(name string) (Val, bool)
@@ -514,8 +515,8 @@ func (e *SpecEnv) index(x *SX) Term {
 		hn, hs, es := u.elemHeapName(el)
 		h := u.heap(e.st, hn, hs)
 		arr := Term{"(select " + h.S + " (s-ref " + b.S + "))", nil}
-		if e.pivotNode == x {
-			r := sel(arr, Term{e.pivotVar, sInt}, es)
+		if pv, ok := e.pivotFor(x); ok {
+			r := sel(arr, Term{pv, sInt}, es)
 			if e.pats != nil {
 				*e.pats = append(*e.pats, r.S)
 			}
@@ -523,8 +524,8 @@ func (e *SpecEnv) index(x *SX) Term {
 		}
 		return sel(arr, add(sliceOff(b), i), es)
 	case KStr:
-		if e.pivotNode == x {
-			r := sel(Term{"(str-arr " + b.S + ")", nil}, Term{e.pivotVar, sInt}, bvSort(8, false))
+		if pv, ok := e.pivotFor(x); ok {
+			r := sel(Term{"(str-arr " + b.S + ")", nil}, Term{pv, sInt}, bvSort(8, false))
 			if e.pats != nil {
 				*e.pats = append(*e.pats, r.S)
 			}
@@ -533,8 +534,8 @@ func (e *SpecEnv) index(x *SX) Term {
 		return sel(Term{"(str-arr " + b.S + ")", nil}, i, bvSort(8, false))
 	case KArray:
 		el := b.T.Go.Underlying().(*types.Array).Elem()
-		if e.pivotNode == x {
-			r := sel(b, Term{e.pivotVar, sInt}, u.tc.sortOf(el))
+		if pv, ok := e.pivotFor(x); ok {
+			r := sel(b, Term{pv, sInt}, u.tc.sortOf(el))
 			if e.pats != nil {
 				*e.pats = append(*e.pats, r.S)
 			}
@@ -1280,6 +1281,19 @@ func (e *SpecEnv) quant(x *SX) Term {
 			}
 		}
 	}
+	if x.Op == "forall" && len(x.BindNames) > 1 && len(x.Pats) == 0 && os.Getenv("GOVC_NOMULTIPIVOT") == "" {
+		allInt := true
+		for _, bt := range x.BindTypes {
+			if s := u.eng.sortByName(u.tc, bt, e.pkg); s.K != KInt {
+				allInt = false
+			}
+		}
+		if allInt {
+			if t, ok := e.quantMulti(x); ok {
+				return t
+			}
+		}
+	}
 	t, _ := mk(nil)
 	return t
 }
@@ -1293,4 +1307,104 @@ func maxVariants() int {
 		}
 	}
 	return 2
+}
+
+func (e *SpecEnv) pivotFor(x *SX) (string, bool) {
+	if e.pivotNode == x && x != nil {
+		return e.pivotVar, true
+	}
+	if v, ok := e.pivots[x]; ok {
+		return v, true
+	}
+	return "", false
+}
+
+// quantMulti emits a universal quantifier over several integer binders in absolute-index form: for each
+// binder (in order) an indexing site s[v] is chosen whose base mentions only earlier binders; v is replaced
+// by q_v - offset(s), the site itself by (select array q_v), and the sites together form the multi-pattern.
+// This is what makes facts such as "for all bars i and events j of bar i ..." usable: the trigger matches a
+// ground term a[x] whatever shape the index x has.
+func (e *SpecEnv) quantMulti(x *SX) (Term, bool) {
+	u := e.u
+	n := *e
+	n.bound = map[string]Term{}
+	for k, v := range e.bound {
+		n.bound[k] = v
+	}
+	var pats []string
+	n.pats = &pats
+	n.pivotNode = nil
+	n.pivots = map[*SX]string{}
+	for k, v := range e.pivots {
+		n.pivots[k] = v
+	}
+	var decl []string
+	ok := func() (ok bool) {
+		defer func() {
+			if r := recover(); r != nil {
+				ok = false
+			}
+		}()
+		for bi, bn := range x.BindNames {
+			qn := "q_" + bn
+			decl = append(decl, "("+qn+" Int)")
+			later := x.BindNames[bi:]
+			cands := pivotCandidatesIn(x.Args[0], bn, later, nil, false)
+			var pc *pivotCand
+			for i := range cands {
+				if cands[i].off == nil {
+					pc = &cands[i]
+					break
+				}
+			}
+			if pc == nil {
+				return false
+			}
+			be := &n
+			if pc.inOld && !n.inOld {
+				if n.old == nil {
+					return false
+				}
+				oe := n
+				oe.st = n.old
+				oe.inOld = true
+				be = &oe
+			}
+			b := be.eval(pc.node.Args[0])
+			if isLit(b) {
+				return false
+			}
+			shift := Term{"0", sInt}
+			if b.T.K == KSlice {
+				shift = sliceOff(b)
+			} else if b.T.K != KStr && b.T.K != KArray {
+				return false
+			}
+			if shift.S == "0" {
+				n.bound[bn] = Term{qn, sInt}
+			} else {
+				n.bound[bn] = Term{"(- " + qn + " " + shift.S + ")", sInt}
+			}
+			n.pivots[pc.node] = qn
+		}
+		return true
+	}()
+	if !ok {
+		return Term{}, false
+	}
+	body := n.evalBool(x.Args[0])
+	if len(pats) == 0 {
+		return Term{}, false
+	}
+	// one multi-pattern made of one site per binder (the last sites mention the earlier binders)
+	seen := map[string]bool{}
+	var mp []string
+	for _, p := range pats {
+		if !seen[p] {
+			seen[p] = true
+			mp = append(mp, p)
+		}
+	}
+	_ = u
+	return Term{"(forall (" + strings.Join(decl, " ") + ") (! " + body.S + " :pattern (" + strings.Join(mp, " ") + ")))", sBool}, true
 }
